@@ -24,15 +24,73 @@ package nsqd
 //@ ghost lastHealthErr error
 //@ ghost lastHealthNSQD *NSQD
 
-// Trusted stub (bytes.Buffer / sync.Pool / the BackendQueue implementation are outside the subset).
-// A nil message would panic in the real function; that is not a precondition here because flush hands
-// it values received from Go channels, whose contents the engine does not model (ENGINE GAPS in
-// NOTES.md). Topic.put / Channel.put require m != nil themselves.
+// ---- (round 4, area A) writeMessageToBackend is VERIFIED (was a trusted stub) ------------------------------------------------
+// PROPERTY TEXT (C07): the body a consumer receives is byte-for-byte the body that was published on every path, "memory or disk
+// queue"; anchor mechanism "pooled encode buffers are reset before reuse" = a pooled buffer is never in the pool while its bytes are
+// still in use. (C01/C05: the backend's answer is what the caller acts on.) What is stated:
+//  * [put-exactly-once]/[backend-error-returned]  unless encoding failed, BackendQueue.Put is called exactly once, on bq, and its
+//    error is the result; [encode-error-returned] an encoding error is returned and nothing is handed to the backend;
+//  * [bytes-of-the-buffer-it-holds]  the slice handed to Put is the view (Bytes()) of the very buffer this call took from the pool;
+//  * [buffer-still-owned-during-put]  when Put was called the pool had seen this call's Get and NO Put since the call began: the
+//    buffer cannot have been given to another goroutine while the disk queue reads its bytes;
+//  * [buffer-returned-exactly-once]   one Get, one Put, of the same buffer (on every path, also the error paths);
+//  * [put-gets-the-encoding]          the bytes handed to Put are timestamp / attempts / id / body of msg in the wire layout
+//    (under the writer-stream convention of codec.spec: wCur is this buffer and no foreign write happened).
+// Ghost records (definitional, maintained by onreturn of the pool stubs and of the externs in lib/trusted/flow.spec):
+//   r4APoolGets / r4AGotBuf / r4AGotAt   calls of bufferPoolGet, its last result, the writer-stream position wN at that moment
+//   r4APoolPuts / r4APutBuf              calls of bufferPoolPut, its last argument
+//   r4ABytesBuf / r4ABytesData           receiver and result of the last (*bytes.Buffer).Bytes
+//   r4ABqPuts, r4ABqPutQueue, r4ABqPutErr, r4ABqPutViewOf (buffer whose Bytes() view was handed over, else nil),
+//   r4ABqPutArr/Off/Len (the bytes at that moment), r4ABqPutSawPoolGets / r4ABqPutSawPoolPuts (pool counters at that moment).
+// The pool and Bytes records are `ghost[free]` (the pool is used by the delivery side as well; no frame lists them); the Put
+// records travel with backendWrites (ghostgroup[lead]: every frame that names backendWrites covers them and the writer stream).
+//@ ghost[free] r4APoolGets int
+//@ ghost[free] r4AGotBuf *bytes.Buffer
+//@ ghost[free] r4AGotAt int
+//@ ghost[free] r4APoolPuts int
+//@ ghost[free] r4APutBuf *bytes.Buffer
+//@ ghost[free] r4ABytesBuf *bytes.Buffer
+//@ ghost[free] r4ABytesData []byte
+//@ ghostgroup r4APoolGets, r4AGotBuf, r4AGotAt
+//@ ghostgroup r4APoolPuts, r4APutBuf
+//@ ghostgroup r4ABytesBuf, r4ABytesData
+//@ ghost r4ABqPuts int
+//@ ghost r4ABqPutQueue BackendQueue
+//@ ghost r4ABqPutErr error
+//@ ghost r4ABqPutViewOf *bytes.Buffer
+//@ ghost r4ABqPutArr seq[byte]
+//@ ghost r4ABqPutOff int
+//@ ghost r4ABqPutLen int
+//@ ghost r4ABqPutSawPoolGets int
+//@ ghost r4ABqPutSawPoolPuts int
+//@ ghostgroup[lead] backendWrites, r4ABqPuts, r4ABqPutQueue, r4ABqPutErr, r4ABqPutViewOf, r4ABqPutArr, r4ABqPutOff, r4ABqPutLen, r4ABqPutSawPoolGets, r4ABqPutSawPoolPuts,
+//@      wN, wOut, wCalls, wErrs, wLastErr, wForeign
+// (len(msg.Body) >= 0 is a typing fact: the engine assumes the well-formedness of a slice only where the code loads it)
+//@ pred r4AEncodedPut(msg *Message, putsBefore int, foreignBefore bool) := r4ABqPuts == putsBefore + 1 && r4AWritesToGotBuf() && !foreignBefore && len(msg.Body) >= 0
+//@ pred r4AWritesToGotBuf() := dyntype(wCur) == typetag("*bytes.Buffer") && unbox(wCur, "*bytes.Buffer") == r4AGotBuf
+// A nil message would panic in the real function (Message.WriteTo): [message] is a precondition now. Topic.put / Channel.put require
+// m != nil themselves; flush and the pumps hand over values RECEIVED from the memory queues: every channel of *Message carries
+// non-nil messages only (channel invariant: an obligation at every send of a *Message into any channel - Topic.put, Channel.put -
+// assumed at every receive; the sweep obligation checks that every such send sits in a verified function).
+//@ chaninv chan[*Message](v) := v != nil
 //@ func writeMessageToBackend(msg *Message, bq BackendQueue) error
 //@   nochan
-//@   props C01 C05 C13
-//@   trusted
+//@   props C01 C05 C13 C07
 //@   requires[queue] bq != nil
+//@   requires[message] msg != nil
+//@   ensures[encode-error-returned] wErrs != old(wErrs) ==> result != nil && result == wLastErr && r4ABqPuts == old(r4ABqPuts)
+//@   ensures[put-exactly-once] wErrs == old(wErrs) ==> r4ABqPuts == old(r4ABqPuts) + 1 && r4ABqPutQueue == bq
+//@   ensures[at-most-one-put] r4ABqPuts == old(r4ABqPuts) || r4ABqPuts == old(r4ABqPuts) + 1
+//@   ensures[backend-error-returned] r4ABqPuts == old(r4ABqPuts) + 1 ==> result == r4ABqPutErr
+//@   ensures[bytes-of-the-buffer-it-holds] r4ABqPuts == old(r4ABqPuts) + 1 ==> r4ABqPutViewOf != nil && r4ABqPutViewOf == r4AGotBuf
+//@   ensures[buffer-still-owned-during-put] r4ABqPuts == old(r4ABqPuts) + 1 ==> r4ABqPutSawPoolGets == old(r4APoolGets) + 1 && r4ABqPutSawPoolPuts == old(r4APoolPuts)
+//@   ensures[buffer-returned-exactly-once] r4APoolGets == old(r4APoolGets) + 1 && r4APoolPuts == old(r4APoolPuts) + 1 && r4APutBuf == r4AGotBuf && r4AGotBuf != nil
+//@   ensures[put-gets-the-encoding.length] r4AEncodedPut(msg, old(r4ABqPuts), old(wForeign)) ==> r4ABqPutLen == 26 + len(msg.Body)
+//@   ensures[put-gets-the-encoding.timestamp] r4AEncodedPut(msg, old(r4ABqPuts), old(wForeign)) ==> sbe64(r4ABqPutArr, r4ABqPutOff) == toU64(msg.Timestamp)
+//@   ensures[put-gets-the-encoding.attempts] r4AEncodedPut(msg, old(r4ABqPuts), old(wForeign)) ==> sbe16(r4ABqPutArr, r4ABqPutOff + 8) == msg.Attempts
+//@   ensures[put-gets-the-encoding.id] r4AEncodedPut(msg, old(r4ABqPuts), old(wForeign)) ==> (forall k int :: {msg.ID[k]} 0 <= k && k < 16 ==> r4ABqPutArr[r4ABqPutOff + 10 + k] == msg.ID[k])
+//@   ensures[put-gets-the-encoding.body] r4AEncodedPut(msg, old(r4ABqPuts), old(wForeign)) ==> (forall k int :: {msg.Body[k]} 0 <= k && k < len(msg.Body) ==> r4ABqPutArr[r4ABqPutOff + 26 + k] == msg.Body[k])
+//@   ensures[message-kept] msg.Timestamp == old(msg.Timestamp) && msg.Attempts == old(msg.Attempts) && msg.Body == old(msg.Body)
 //@   modifies backendWrites, lastWriteMsg, lastWriteQueue, lastWriteErr
 //@   onreturn backendWrites := backendWrites + 1
 //@   onreturn lastWriteMsg := msg
@@ -146,6 +204,11 @@ package nsqd
 //@   requires c != nil
 //@   ensures[flag] result == (c.exitFlag == 1)
 //@   modifies
+//   (round 4, area B) the test is recorded, with the lock mode of c.exitMutex in the CALLER (ghosts in zz_contracts_r4B_verif.go)
+//@   onreturn r4BExitTests := r4BExitTests + 1
+//@   onreturn r4BExitTestChan := c
+//@   onreturn r4BExitTestSaw := result
+//@   onreturn r4BExitTestHeld := holds(c, "exitMutex")
 
 // The three in-memory queues of a channel are created separately (or absent): pairwise different unless nil.
 //@ pred queuesDistinct(c *Channel) := (c.zoneLocalMsgChan == nil || (c.zoneLocalMsgChan != c.regionLocalMsgChan && c.zoneLocalMsgChan != c.memoryMsgChan)) &&
@@ -153,6 +216,10 @@ package nsqd
 //@ func (c *Channel) put(m *Message) error
 //@   props C01 C13 C05 C02
 //@   requires flowChan(c) && m != nil
+//   (round 4, area B; C08/C05 exit discipline) a message is enqueued only inside an exitMutex section of the caller (PutMessage,
+//   RequeueMessage, the two timeout scans): Channel.exit() - which flushes or discards the queues - cannot run in between.
+//@   requires[exit-lock-held] holds(c, "exitMutex")
+//@   keeps r4BExitTests, r4BExitTestChan, r4BExitTestSaw, r4BExitTestHeld
 //@   ensures[at-most-one-write] backendWrites == old(backendWrites) || backendWrites == old(backendWrites) + 1
 //@   ensures[backend-gets-this-message] backendWrites == old(backendWrites) + 1 ==> lastWriteMsg == m && lastWriteQueue == c.backend
 //@   ensures[backend-error-returned] backendWrites == old(backendWrites) + 1 ==> result == lastWriteErr
@@ -173,9 +240,28 @@ package nsqd
 //@   onreturn chanPutOK := chanPutOK + (result == nil ? 1 : 0)
 //@   onreturn lastChanPutMsg := m
 
+// (round 4, area A) HAND-OFF = OWNERSHIP TRANSFER. Once PutMessage / PutMessageDeferred returned, the message object belongs to the
+// channel: a consumer's delivery pump (Attempts++, StartInFlightTimeout: clientID / deliveryTS / pri / index), the timeout scan or a
+// REQ may already have changed its delivery bookkeeping. The frame therefore lists these five fields of m although the body does
+// not write them (a frame is an upper bound; listing more is the sound direction): the caller knows NOTHING about them afterwards,
+// so whatever the topic pump says about the per-channel copies (C02 "every delivery carries an attempts count exactly one higher
+// than the previous one, starting at 1": a copy starts at 0) must be established BEFORE the hand-off. The state AT the hand-off is
+// recorded by r4AHandAttempts (onreturn reads old(): the pre-call state).
+// The published envelope - ID, Body, Timestamp (C07 "identical on every redelivery and on every channel") and the publisher's
+// delay `deferred` (C04: the pump reads it for the copy of every further channel) - is never written by a function that received a
+// published message: [published-fields-kept], and `immutable` below (SSA sweep over the whole repository).
+//@ ghost r4AHandAttempts int
+//@ ghostgroup lHandCalls, r4AHandAttempts
+//@ pred r4AEnvelopeKept(m *Message) := m.Body == old(m.Body) && m.Timestamp == old(m.Timestamp) && m.deferred == old(m.deferred) && (forall j int :: {m.ID[j]} 0 <= j && j < 16 ==> m.ID[j] == old(m.ID[j]))
+//@ immutable Message.deferred, Message.Timestamp, Message.Body
+// the only writers of these fields besides the allocating functions (NewMessage, decodeMessage): the deferred-publish handlers set
+// the delay of the message they just built, before Topic.PutMessage; the topic pump fills the copy it just built, before the hand-off
+//@ constructors (*nsqd.protocolV2).DPUB, (*nsqd.httpServer).doPUB, (*nsqd.Topic).messagePump
+
 //@ func (c *Channel) PutMessage(m *Message) error
-//@   props C01 C13
+//@   props C01 C13 C02 C04 C07
 //@   requires flowChan(c) && m != nil
+//@   ensures[published-fields-kept] r4AEnvelopeKept(m)
 //@   ensures[exiting-refused] old(c.exitFlag) == 1 ==> result != nil
 //@   ensures[exiting-nothing-enqueued] old(c.exitFlag) == 1 ==> chanPuts == old(chanPuts) && backendWrites == old(backendWrites)
 //@   ensures[one-put] old(c.exitFlag) != 1 ==> chanPuts == old(chanPuts) + 1 && lastChanPutMsg == m
@@ -185,12 +271,16 @@ package nsqd
 //@   ensures[ok-count] result == nil ==> c.messageCount == fmod(old(c.messageCount) + 1, two64())
 //@   ensures[backend-error-returned] backendWrites == old(backendWrites) + 1 ==> result == lastWriteErr
 //@   ensures[other-counters] c.requeueCount == old(c.requeueCount) && c.timeoutCount == old(c.timeoutCount)
-//@   modifies c.messageCount, backendWrites, lastWriteMsg, lastWriteQueue, lastWriteErr, healthSets, lastHealthErr, lastHealthNSQD, chanPuts, chanPutOK, lastChanPutMsg
+//   (round 4, area B) the put is preceded by an exit test made by this call while it held exitMutex, which answered "not exiting"
+//@   ensures[enqueued-only-after-exit-test-under-exit-lock] chanPuts != old(chanPuts) ==> r4BExitTests > old(r4BExitTests) && r4BExitTestChan == c && r4BExitTestHeld && !r4BExitTestSaw
+//@   modifies c.messageCount, backendWrites, lastWriteMsg, lastWriteQueue, lastWriteErr, healthSets, lastHealthErr, lastHealthNSQD, chanPuts, chanPutOK, lastChanPutMsg,
+//@        m.Attempts, m.deliveryTS, m.clientID, m.pri, m.index
 //   the hand-off, for Topic.messagePump's distribution clauses (ghosts in zz_contracts_ltopic_verif.go)
 //@   onreturn lHandCalls := lHandCalls + 1
 //@   onreturn lHandChan := c
 //@   onreturn lHandMsg := m
 //@   onreturn lHandDeferred := false
+//@   onreturn r4AHandAttempts := old(m.Attempts)
 //@   onreturn r3aHandSawPauseChecks := r3aPauseChecks
 
 // ---- deferred publish -------------------------------------------------------------------------------
@@ -253,19 +343,22 @@ package nsqd
 // deferred map (0 or 1). FINDING on the unchanged code: the error of StartDeferredTimeout is dropped
 // after the count has been bumped (see DELIVER/NOTES.md, replay nsqd_deferred_count_test.go).
 //@ func (c *Channel) PutMessageDeferred(msg *Message, timeout time.Duration)
-//@   props C13 C01
+//@   props C13 C01 C02 C04 C07
 //@   requires c != nil && msg != nil
+//@   ensures[published-fields-kept] r4AEnvelopeKept(msg)
 //@   ensures[one-push] deferredPushes == old(deferredPushes) + 1 && lastDeferredMsg == msg
 //@   ensures[counted-only-if-deferred] deferredPushOK == old(deferredPushOK) ==> c.messageCount == old(c.messageCount)
 //@   ensures[deferred-is-counted] deferredPushOK == old(deferredPushOK) + 1 ==> c.messageCount == fmod(old(c.messageCount) + 1, two64())
 //@   ensures[at-most-one] c.messageCount == old(c.messageCount) || c.messageCount == fmod(old(c.messageCount) + 1, two64())
 //@   ensures[other-counters] c.requeueCount == old(c.requeueCount) && c.timeoutCount == old(c.timeoutCount)
-//@   modifies c.messageCount, c.deferredMessages, c.deferredPQ, mapstore(map[MessageID]*pqueue.Item), elems(*pqueue.Item), pqueue.Item.Index, deferredPushes, deferredPushOK, lastDeferredMsg, lastNow
+//@   modifies c.messageCount, c.deferredMessages, c.deferredPQ, mapstore(map[MessageID]*pqueue.Item), elems(*pqueue.Item), pqueue.Item.Index, deferredPushes, deferredPushOK, lastDeferredMsg, lastNow,
+//@        msg.Attempts, msg.deliveryTS, msg.clientID, msg.pri, msg.index
 //@   onreturn lHandCalls := lHandCalls + 1
 //@   onreturn lHandChan := c
 //@   onreturn lHandMsg := msg
 //@   onreturn lHandDeferred := true
 //@   onreturn lHandDelay := timeout
+//@   onreturn r4AHandAttempts := old(msg.Attempts)
 //@   onreturn r3aHandSawPauseChecks := r3aPauseChecks
 
 // ---- flush / empty (C05) ----------------------------------------------------------------------------
@@ -291,6 +384,10 @@ package nsqd
 //@   ensures[never-unwrites] backendWrites >= old(backendWrites)
 //@   ensures[every-deferred-written] forall id MessageID :: {atunlock(c.deferredMessages[id])} atunlock(has(c.deferredMessages, id)) ==> setin(r3aWrittenSet, atunlock(unbox(c.deferredMessages[id].Value, "*Message")))
 //@   ensures[nothing-enqueued] sent(c.memoryMsgChan) == old(sent(c.memoryMsgChan)) && sent(c.zoneLocalMsgChan) == old(sent(c.zoneLocalMsgChan)) && sent(c.regionLocalMsgChan) == old(sent(c.regionLocalMsgChan))
+//   (round 4, area B; C05 "queued in memory ... is delivered again": the WHOLE memory backlog goes to disk) the drain loop ended because
+//   all three memory queues were seen empty in one non-blocking select (its `default`), not e.g. at the first write error; nothing was
+//   received or sent on them afterwards (closes gap A1 of notes/area_r3A.md)
+//@   ensures[memory-queues-seen-empty] drained(c.memoryMsgChan) && drained(c.zoneLocalMsgChan) && drained(c.regionLocalMsgChan)
 //@   ensures[counters-untouched] c.messageCount == old(c.messageCount) && c.requeueCount == old(c.requeueCount) && c.timeoutCount == old(c.timeoutCount)
 //@   modifies c.inFlightMessages, c.inFlightPQ, mapstore(map[MessageID]*Message), c.deferredMessages, c.deferredPQ, mapstore(map[MessageID]*pqueue.Item), backendWrites, lastWriteMsg, lastWriteQueue, lastWriteErr, chanstore(*Message)
 //   (area K) the call is recorded for Channel.exit's contract (ghosts declared in zz_contracts_kchannel_verif.go)
@@ -329,6 +426,8 @@ package nsqd
 //@   ensures[never-unwrites] backendWrites >= old(backendWrites)
 //@   ensures[received-all-written] backendWrites - old(backendWrites) == recvd(t.memoryMsgChan) - old(recvd(t.memoryMsgChan))
 //@   ensures[nothing-enqueued] sent(t.memoryMsgChan) == old(sent(t.memoryMsgChan))
+//   (round 4, area B) the drain ended because the memory queue was seen empty (select took `default`), not at the first write error
+//@   ensures[memory-queue-seen-empty] drained(t.memoryMsgChan)
 //@   ensures[counters-untouched] t.messageCount == old(t.messageCount) && t.messageBytes == old(t.messageBytes)
 //@   modifies backendWrites, lastWriteMsg, lastWriteQueue, lastWriteErr, chanstore(*Message)
 //   (area K) the call is recorded for Topic.exit's contract (ghosts declared in zz_contracts_kchannel_verif.go)
